@@ -1,71 +1,92 @@
-(* C01 — property theorems.  [run e b] is the model of decoding the byte string [b] through
-   entry point [e] (message, server request, record, name, RDATA of type t); it returns the
-   outcome, the final decoder and the log (ticks, pointer hops, every name decoded).
-   All statements are for every byte string (no length bound is needed). *)
-From HV Require Import Lib.Base C01.Model C01.BaseProofs C01.MsgProofs.
+(* C01 — property theorems.
+   [run_cap cp e b] is the model of decoding the byte string [b] through entry point [e]
+   (message, server request, record, name, RDATA of type t) when a name may follow at most
+   [cp] compression pointers: cp = None is the code as it is today, cp = Some 127 the code
+   with the candidate repair of finding F1; [run] = [run_cap hop_cap] is the one tied to the
+   implementation by the correspondence check.  A run returns the outcome, the final decoder
+   and the log (ticks, pointer hops, every name decoded).  All statements hold for every byte
+   string: no length bound is needed. *)
+From HV Require Import Lib.Base C01.Model C01.BaseProofs C01.MsgProofs C01.CostProofs.
 Open Scope N_scope.
 
-Lemma run_post e b :
-  match run e b with (r, c', l') => post AS KM 0 (init b) log0 r c' l' end.
-Proof. unfold run. apply ok_entry; [apply wf_init|constructor]. Qed.
-
 (* Totality: every entry point, on every input, returns a value or an error: it never
-   reaches the (one) slice expression that could panic, never exhausts the fuel of any loop
-   (no unbounded pointer following), and never leaves the modelled code. *)
-Theorem C01_decode_total : forall e b,
-  match run e b with (r, _, _) => total r end.
-Proof. intros e b. pose proof (run_post e b) as P. destruct (run e b) as [[r c] l]. exact (p_total _ _ _ _ _ _ _ _ P). Qed.
+   reaches the slice expression that could panic (`&buffer[index_at..]` in clone), never
+   exhausts the fuel of any loop (no unbounded pointer following), and never leaves the
+   modelled code. *)
+Theorem C01_decode_total : forall cp e b,
+  match run_cap cp e b with (r, _, _) => total r end.
+Proof.
+  intros cp e b. pose proof (run_cap_post cp e b) as P. destruct (run_cap cp e b) as [[r c] l].
+  exact (p_total _ _ _ _ _ _ _ _ P).
+Qed.
 Print Assumptions C01_decode_total.
 
 (* Every name decoded along the way (also inside a message that is later rejected) has labels
    of 1..63 octets and an uncompressed wire length of at most 255 octets. *)
-Theorem C01_names_bounded : forall e b,
-  match run e b with (_, _, l) => Forall wf_name (names l) end.
-Proof. intros e b. pose proof (run_post e b) as P. destruct (run e b) as [[r c] l]. exact (p_names _ _ _ _ _ _ _ _ P). Qed.
+Theorem C01_names_bounded : forall cp e b,
+  match run_cap cp e b with (_, _, l) => Forall wf_name (names l) end.
+Proof.
+  intros cp e b. pose proof (run_cap_post cp e b) as P. destruct (run_cap cp e b) as [[r c] l].
+  exact (p_names _ _ _ _ _ _ _ _ P).
+Qed.
 Print Assumptions C01_names_bounded.
 
 (* The decoder never reads past the input: the final index is within the byte string. *)
-Theorem C01_consumed_within_input : forall e b,
-  match run e b with (_, c, _) => pos c <= N.of_nat (length b) end.
-Proof.
-  intros e b. pose proof (run_post e b) as P. destruct (run e b) as [[r c] l].
-  pose proof (wf_pos _ (p_wf _ _ _ _ _ _ _ _ P)) as H1.
-  destruct (p_same _ _ _ _ _ _ _ _ P) as (_ & _ & _ & H2). cbn in H2. lia.
-Qed.
+Theorem C01_consumed_within_input : forall cp e b,
+  match run_cap cp e b with (_, c, _) => pos c <= N.of_nat (length b) end.
+Proof. exact consumed_le. Qed.
 Print Assumptions C01_consumed_within_input.
 
-(* Time: ticks (one per primitive read / loop iteration) are linear in the input length,
-   apart from 6 ticks per compression pointer followed. *)
-Theorem C01_ticks_linear_plus_hops : forall e b,
-  match run e b with (_, _, l) => ticks l <= 1588 * N.of_nat (length b) + 5298 + 6 * hops l end.
-Proof.
-  intros e b. pose proof (run_post e b) as P. destruct (run e b) as [[r c] l].
-  pose proof (wf_pos _ (p_wf _ _ _ _ _ _ _ _ P)) as H1.
-  destruct (p_same _ _ _ _ _ _ _ _ P) as (_ & _ & _ & H2). cbn in H2.
-  pose proof (p_ticks _ _ _ _ _ _ _ _ P) as T. cbn in T.
-  assert (AS * (pos c - 0) <= AS * N.of_nat (length b)) by (apply N.mul_le_mono_l; lia).
-  change AS with 1588 in *. change KM with 5298 in *. lia.
-Qed.
+(* Time, part 1: ticks (one per primitive read / loop iteration) are linear in the input
+   length, apart from 6 ticks per compression pointer followed. *)
+Theorem C01_ticks_linear_plus_hops : forall cp e b,
+  match run_cap cp e b with (_, _, l) => ticks l <= 165 * N.of_nat (length b) + 5298 + 6 * hops l end.
+Proof. exact ticks_le. Qed.
 Print Assumptions C01_ticks_linear_plus_hops.
 
-(* Pointer hops: at most 16384 per name (targets are below 2^14 and strictly decreasing),
-   and a name is read at most once per input byte (plus the one that fails). *)
-Theorem C01_hops_bounded : forall e b,
-  match run e b with (_, _, l) => hops l <= 16384 * (N.of_nat (length b) + 1) end.
-Proof.
-  intros e b. pose proof (run_post e b) as P. destruct (run e b) as [[r c] l].
-  pose proof (wf_pos _ (p_wf _ _ _ _ _ _ _ _ P)) as H1.
-  destruct (p_same _ _ _ _ _ _ _ _ P) as (_ & _ & _ & H2). cbn in H2.
-  pose proof (p_hops _ _ _ _ _ _ _ _ P) as T. cbn in T.
-  assert (Hmax * (pos c - 0) <= Hmax * N.of_nat (length b)) by (apply N.mul_le_mono_l; lia).
-  change Hmax with 16384 in *. destruct (is_ok r); lia.
-Qed.
-Print Assumptions C01_hops_bounded.
+(* Time, part 2: pointer hops are only made while reading names, at most 16384 per name
+   (targets are below 2^14 and strictly decreasing; at most the cap when one is configured),
+   so at most that many per name decoded plus the one name that fails. *)
+Theorem C01_hops_per_name : forall cp e b,
+  match run_cap cp e b with
+  | (_, _, l) => hops l <= (match cp with Some k => N.min k 16384 | None => 16384 end)
+                           * (N.of_nat (length (names l)) + 1)
+  end.
+Proof. exact hops_per_name. Qed.
+Print Assumptions C01_hops_per_name.
 
-(* Non-vacuity / sanity: a compressed name is decoded through two pointers. *)
+(* Time, the clause of the property ("time proportional to the input length"), as the budget
+     ticks + hops <= 165 |b| + 5298 + 7 * 127 * (names decoded + 1)        [p_lin]
+   (a name is at least one byte, so this is linear in |b|).
+   - refuted for the code as it is: a 8835-byte UPDATE message costs more (finding F1);
+   - holds for every input outside the known class (inputs on which a 127-pointer cap would
+     change the work done: some name follows more than 127 pointers);
+   - holds for every input once the cap is in place (the candidate repair). *)
+Theorem C01_time_linear_refuted :
+  exists b, N.of_nat (length b) <= 65535 /\ ~ p_lin None EMessage b.
+Proof. exists f1_witness. exact f1_refutes. Qed.
+Print Assumptions C01_time_linear_refuted.
+
+Theorem C01_time_linear_guarded : forall e b, ~ known_f1 e b -> p_lin None e b.
+Proof. exact p_lin_guarded. Qed.
+Print Assumptions C01_time_linear_guarded.
+
+Theorem C01_time_linear_with_cap : forall e b, p_lin (Some 127) e b.
+Proof. exact p_lin_capped. Qed.
+Print Assumptions C01_time_linear_with_cap.
+
+(* Non-vacuity. *)
+(* a compressed name decoded through two pointers; a self-pointer is rejected *)
 Example C01_example_name :
   let b := [1; 97; 0; 192; 0; 192; 3] in
-  fst (fst (entry_m EName (mkCur b no_table 8 7 5 [192; 3]) log0)) = Ok [1; 97; 0].
+  fst (fst (entry_m EName (mkCur b no_table 8 None 7 5 [192; 3]) log0)) = Ok [1; 97; 0].
 Proof. vm_compute. reflexivity. Qed.
 Example C01_example_self_pointer : fst (fst (run EName [192; 0])) = Err EPtrNotPrior.
 Proof. vm_compute. reflexivity. Qed.
+(* the guard of C01_time_linear_guarded is satisfiable by a message that follows a pointer,
+   and the witness of the refutation is in the known class *)
+Example C01_guard_satisfiable :
+  ~ known_f1 EMessage small_msg /\ hops (run_log None EMessage small_msg) = 1.
+Proof. exact small_msg_not_known. Qed.
+Example C01_witness_is_known : known_f1 EMessage f1_witness.
+Proof. exact witness_known. Qed.
